@@ -46,6 +46,15 @@ META = {
             "sign, dot, underscore) or is a literal word, or a non-string value",
 }
 
+
+def report(ctx: Ctx, what: str, replay_obj, key=None) -> None:
+    """ctx.violation, but at most 50 replay files per run (the rest is counted in the evidence)."""
+    if key is not None or len(ctx.violations) < 50:
+        ctx.violation(what, replay_obj, key=key)
+    else:
+        ctx.cov["violations_not_written"] = ctx.cov.get("violations_not_written", 0) + 1
+
+
 ERR_T = [-1]
 ERR_V = {"k": "err", "v": 0}
 KEYS = {1: "unparseable-json-prefix", 2: "json-string-literal-unquoted"}
@@ -201,7 +210,7 @@ def judge(ctx: Ctx, x, dev: int, obj, fmt, back, source: str) -> bool:
         return True
     key = KEYS.get(dev)
     if key is None or key not in _reported:      # one witness per known deviation class, every other failure
-        ctx.violation(what, {"source": source, "x": x, "model_deviation": dev}, key=key)
+        report(ctx, what, {"source": source, "x": x, "model_deviation": dev}, key=key)
     if key:
         _reported.add(key)
     return False
@@ -427,7 +436,7 @@ def run(ctx: Ctx) -> None:
         ctx.count_eval()
         b = real_parse(f)
         if not isinstance(b, Raised) and same(b, o) and not (k == "key.name" and not isinstance(v, Raised) and same(v, o)):
-            ctx.violation(f"key=value form of {o!r} does not parse back: {format_tag_key_value('key.name', o)!r} -> {(k, v)!r}",
+            report(ctx, f"key=value form of {o!r} does not parse back: {format_tag_key_value('key.name', o)!r} -> {(k, v)!r}",
                           {"source": "key-value", "x": from_py(o)})
 
 
